@@ -92,6 +92,9 @@ func (e *Env) expr(x ast.Expr) Value {
 	case *ast.SelectorExpr:
 		return e.selector(x)
 	case *ast.StarExpr:
+		if sv, ok := e.unsafeStringCast(x); ok {
+			return sv
+		}
 		v := e.expr(x.X)
 		if v.K == VPtr {
 			e.assertNonNil(v, x.Pos(), "deref")
@@ -164,6 +167,9 @@ func (e *Env) ident(x *ast.Ident) Value {
 		}
 		if gv, ok := e.ghostParams[o.Name()]; ok && e.locals[o] == "" {
 			_ = gv
+		}
+		if cv, ok := e.constVals[o]; ok {
+			return cv
 		}
 		return e.readVar(e.localName(o), o.Type())
 	}
@@ -729,4 +735,35 @@ func (e *Env) extract(v Value, t types.Type) Value {
 
 func exprString(x ast.Expr) string {
 	return types.ExprString(x)
+}
+
+
+// unsafeStringCast recognises *(*T)(unsafe.Pointer(&s)) with s a byte slice and
+// T a string type: the result is a string sharing s's bytes.
+func (e *Env) unsafeStringCast(x *ast.StarExpr) (Value, bool) {
+	c1, ok := ast.Unparen(x.X).(*ast.CallExpr)
+	if !ok || len(c1.Args) != 1 {
+		return Value{}, false
+	}
+	c2, ok := ast.Unparen(c1.Args[0]).(*ast.CallExpr)
+	if !ok || len(c2.Args) != 1 {
+		return Value{}, false
+	}
+	if t, ok := e.info().Types[c2.Fun]; !ok || !t.IsType() || t.Type.String() != "unsafe.Pointer" {
+		return Value{}, false
+	}
+	u, ok := ast.Unparen(c2.Args[0]).(*ast.UnaryExpr)
+	if !ok || u.Op != token.AND {
+		return Value{}, false
+	}
+	rt := e.info().Types[x].Type
+	if k, _ := kindOf(rt); k != VStr {
+		return Value{}, false
+	}
+	s := e.expr(u.X)
+	if s.K != VSlice || s.ElemU {
+		return Value{}, false
+	}
+	e.w.trustedNote("unsafe cast of a byte slice to a string (TakeRedactableString) modelled as a string over the same bytes; the slice header layout is trusted")
+	return Value{K: VStr, Arr: e.tmp(Select(e.mem(), s.Ref)), Off: s.Off, Len: s.Len, Typ: rt}, true
 }
